@@ -223,7 +223,7 @@ class Gen:
             st["bad"] = "notcoro"
             st["nck"] = rng.randrange(5)
         elif bad == "nc0" and kind != "apply":
-            st["nc"] = rng.choice([0, -1])
+            st["nc"] = rng.choice([0, -1, 0.5, 0.999, -0.5])
         return st
 
     def _g_bad_spawn(self, sim):
@@ -593,20 +593,52 @@ class BigGen(Gen):
 
 
 class ScaleGen(Gen):
-    """Directed scale scenarios (unit kind `huge`): one thing is made large - invocations per request (64 ... 1500),
-    elements per map, spawners waiting for room at the same time (10 ... 130), pools (12, so that pool indices get
-    two digits), the length / alphabet of group names, stop(n) - and everything is then drained in a seeded order."""
+    """Directed scale scenarios (unit kind `huge`): one thing is made large - invocations per request (64 ... 1500,
+    rarely 4100), elements per map, failing calls / bad elements per request (>= 10, > 100), requests and groups per
+    pool (10 ... 140), spawners waiting for room at the same time, pools (12+, two-digit pool indices), tasks that came
+    and went before (ids >= 1000), the length / alphabet of group and pool names, stop(n) - around the powers of two and
+    ten where batch sizes, caps and fixed-width formats live.  Everything is then drained in a seeded order, optionally
+    with a group cancellation in the middle, and closed early / late / never."""
 
-    TEMPLATES = ["apply_many", "map_many", "waiters", "names", "start_stop", "pools", "equal_bounds"]
+    TEMPLATES = ["apply_many", "apply_many", "map_many", "map_many", "many_requests", "many_requests", "parked_cb",
+                 "names", "start_stop", "pools", "equal_bounds", "cb_storm"]
+    PARKED = [101, 1000, 1001, 1024, 1100, 4100]
+    STORM = [100, 101, 128, 256, 257, 300]
     NAMES = ["x" * 300, "n" * 5000, "名前-группа", "with space", "tab\there", "new\nline", " lead", "trail ",
              "apply-work-group-10", "0", "-", "--help", "a/b\\c", "é" * 64, "g" + "́" * 10]
+    LONG_POOL = "ingest-eu-central-1-tenant-0b5e7c1a-93f4-4d2e-8a61-reprocess-"
+    COUNTS = [64, 65, 100, 101, 128, 129, 256, 257, 300, 1000, 1001, 1024, 1025, 1100, 1500]
 
-    def __init__(self, seed: int, prop: str, clean: bool = True):
+    KS = [10, 33, 63, 64, 65, 99, 100, 101, 127, 128, 129, 140]
+
+    def __init__(self, seed: int, prop: str, clean: bool = True, index: int = None):
         super().__init__(seed, prop, clean)
-        self.template = self.rng.choice(self.TEMPLATES)
+        rng = self.rng
+        self.template = rng.choice(self.TEMPLATES)
+        self.index = index
+        if index is not None:
+            # systematic part: templates and the threshold-sized quantity cycle with the unit index, the rest is seeded
+            self.template = self.TEMPLATES[index % len(self.TEMPLATES)]
         self.queue = None
         self.drained = 0
         self.tail = None
+        self.asked_old = False
+        self.filled = False
+        self.mid_cancel = rng.random() < 0.5
+        # when the pool is closed: not at all / after everything was drained and flushed / after draining WITHOUT a
+        # flush (the pool still remembers every ended task) / early, while most of the work is still pending
+        self.close_mode = rng.choice(["none", "flushed", "unflushed", "early", "early"])
+        self.n = rng.choice(self.COUNTS) if rng.random() > 0.04 else 4100
+        self.k = rng.choice(self.KS)
+        if index is not None:
+            j = index // len(self.TEMPLATES)
+            self.k = self.KS[j % len(self.KS)]
+            if rng.random() > 0.04:
+                self.n = self.COUNTS[j % len(self.COUNTS)]
+        if self.template == "many_requests" and rng.random() < 0.4:
+            self.close_mode = "early"
+        # an early failure, long before the bulk of the work: flush()/gather_and_close() must still raise it at the end
+        self.pre_fail = self.template in ("apply_many", "map_many", "many_requests") and rng.random() < 0.3
 
     def make_config(self):
         rng = self.rng
@@ -617,33 +649,105 @@ class ScaleGen(Gen):
                  "ccb": rng.choice([None, "s"]), "sc": [{"g": 1}]}
             return {"hmask": 0, "pools": [p]}
         if t == "pools":
-            return {"hmask": rng.choice([0, 5]), "many_pools": True,
-                    "pools": [{"cls": "T", "size": rng.choice([None, 2, 3])} for _ in range(12)]}
-        size = {"apply_many": rng.choice([None, 1, 10, 64, 100, 128]), "map_many": rng.choice([None, 1, 10, 100]),
-                "waiters": rng.choice([1, 1, 2]), "names": rng.choice([None, 2]), "equal_bounds": rng.choice([10, 11, 16, 32])}[t]
-        return {"hmask": rng.choice([0, 3]), "pools": [{"cls": "T", "size": size}]}
+            pools = [{"cls": "T", "size": rng.choice([None, 2, 3])} for _ in range(12)]
+            if rng.random() < 0.5:
+                pools[0]["name"] = self.LONG_POOL + "high"
+                pools[1]["name"] = self.LONG_POOL + "low"
+            return {"hmask": rng.choice([0, 5]), "many_pools": True, "pools": pools}
+        size = {"apply_many": rng.choice([None, None, 1, 4, 10, 64, 100, 128]), "map_many": rng.choice([None, None, 1, 4, 10, 100]),
+                "many_requests": rng.choice([None, None, None, 1, 2]), "names": rng.choice([None, 2]), "parked_cb": 2, "cb_storm": None,
+                "equal_bounds": rng.choice([10, 11, 16, 32])}[t]
+        p = {"cls": "T", "size": size}
+        self.assign = None
+        if t not in ("parked_cb", "equal_bounds") and (self.prop == "C15" or rng.random() < 0.15):
+            # the size is assigned to the still empty pool instead of being given to the constructor
+            self.assign = size
+            p["size"] = rng.choice([None, 1, 7])
+        if t == "names" and rng.random() < 0.5:
+            p["name"] = self.LONG_POOL + rng.choice(["high", "low"])
+        return {"hmask": rng.choice([0, 3]), "pools": [p]}
+
+    def _scripts(self, n, gated):
+        rng = self.rng
+        base = {"g": 1} if gated else {"g": 0}
+        scs = [dict(base) for _ in range(rng.choice([1, 3, 7]))]
+        if rng.random() < 0.3:
+            scs[rng.randrange(len(scs))]["end"] = "x"          # some of the many tasks fail
+        return scs
 
     def _initial(self, sim):
         rng = self.rng
         t = self.template
         q = []
         cb = rng.choice([None, "s", "a"])
-        if t == "apply_many":
-            n = rng.choice([64, 65, 100, 128, 256, 1000, 1024, 1500])
-            q.append({"op": "spawn", "p": 0, "r": 1, "kind": "apply", "fk": "sync", "num": n, "ash": rng.choice(ASH), "ecb": cb,
-                      "sc": [{"g": 0}] if n > 300 else [{"g": rng.choice([0, 0, 1])}]})
+        n = self.n
+        if getattr(self, "assign", None) is not None or (getattr(self, "assign", 0) is None and self.prop == "C15" and t not in ("start_stop", "pools", "parked_cb", "equal_bounds")):
+            q.append({"op": "resize_idle", "p": 0, "v": self.assign})
+        if self.pre_fail:
+            q += [{"op": "spawn", "p": 0, "r": 800, "kind": "apply", "fk": "sync", "num": 1, "sc": [{"g": 0, "end": "x"}]}, {"op": "idle"}]
+        if t == "cb_storm":
+            # hundreds of tasks inside a suspending cancel (and end) callback at the same time
+            m = self.STORM[(self.index // len(self.TEMPLATES)) % len(self.STORM)] if self.index is not None else rng.choice(self.STORM)
+            q += [{"op": "spawn", "p": 0, "r": 1, "kind": rng.choice(["apply", "map"]), "fk": "sync", "num": m, "elems": [0] * m, "nc": m,
+                   "ccb": "g", "ecb": rng.choice([None, "s", "g"]), "sc": [{"g": 1}]},
+                  {"op": "idle"}, {"op": "cancel_all", "p": 0}, {"op": "idle"}, {"op": "read"}]
+        elif t == "apply_many":
+            gated = rng.random() < 0.5 and n <= 1100
+            st = {"op": "spawn", "p": 0, "r": 1, "kind": "apply", "fk": "sync", "num": n, "ash": rng.choice(ASH), "ecb": cb,
+                  "ccb": rng.choice([None, "s"]), "sc": self._scripts(n, gated)}
+            if rng.random() < 0.25:
+                st["fail"] = sorted(rng.sample(range(min(n, 60)), rng.choice([10, 11, 12])))     # >= 10 failing calls
+                st["fx"] = rng.randrange(5)
+            q.append(st)
         elif t == "map_many":
-            n = rng.choice([64, 100, 128, 257, 1000, 1025])
-            q.append({"op": "spawn", "p": 0, "r": 1, "kind": rng.choice(["map", "starmap", "doublestarmap"]), "fk": "sync",
-                      "elems": [0] * n, "nc": rng.choice([1, 10, 64, 100, n]), "ecb": cb, "itk": rng.choice([0, 1]),
-                      "sc": [{"g": 0}] if n > 300 else [{"g": rng.choice([0, 0, 1])}]})
-        elif t == "waiters":
-            k = rng.choice([10, 33, 64, 65, 130])
+            kind = rng.choice(["map", "starmap", "doublestarmap"])
+            gated = rng.random() < 0.5 and n <= 1100
+            elems = [0] * n
+            r = rng.random()
+            if kind != "map" and r < 0.2 and n <= 1100:
+                elems = [1 if i % 2 else 0 for i in range(n)]                 # more than 100 bad elements when n > 200
+            elif kind != "map" and r < 0.4:
+                for i in rng.sample(range(min(n, 60)), rng.choice([10, 12])):   # >= 10 bad elements
+                    elems[i] = 1
+            st = {"op": "spawn", "p": 0, "r": 1, "kind": kind, "fk": "sync", "elems": elems,
+                  "nc": rng.choice([1, 10, 64, 100, n]), "ecb": cb, "itk": rng.choice([0, 1]), "sc": self._scripts(n, gated)}
+            if rng.random() < 0.15:
+                st["fail"] = sorted(rng.sample(range(min(n, 60)), 11))
+            q.append(st)
+        elif t == "many_requests":
+            k = self.k                     # (the request after these is the k+1-th)
+            kinds = rng.choice([["map"], ["apply"], ["apply", "map"]])
+            blocked = sim.pools[0].size is not None
+            g = 1 if blocked else rng.choice([0, 0, 1])
             for i in range(k):
-                q.append({"op": "spawn", "p": 0, "r": i + 1, "kind": rng.choice(["apply", "apply", "map"]), "fk": "sync", "num": 1,
-                          "elems": [0], "nc": 1, "ecb": cb, "sc": [{"g": 1}]})
+                q.append({"op": "spawn", "p": 0, "r": i + 1, "kind": rng.choice(kinds), "fk": "sync", "num": 1,
+                          "elems": [0], "nc": 1, "ecb": cb, "sc": [{"g": g}]})
                 if rng.random() < 0.1:
                     q.append({"op": "run", "n": rng.choice([1, 3])})
+            if not blocked:
+                # the k+1-th request of a never-flushed pool is a long one
+                q.append({"op": "spawn", "p": 0, "r": 903, "kind": rng.choice(["map", "map", "apply"]), "fk": "sync", "elems": [0] * 6, "nc": 2,
+                          "num": 3, "sc": [{"g": 1}]})
+                # a long-lived pool with 100+ finished groups: flush, then rejected requests must change nothing
+                q.append({"op": "idle"})
+                if rng.random() < 0.5:
+                    q += [{"op": "flush", "p": 0, "rex": 1}, {"op": "idle"}]
+                q.append({"op": "lock", "p": 0})
+                q.append({"op": "spawn", "p": 0, "r": 900, "kind": "map", "fk": "sync", "elems": [0, 0], "nc": 1, "sc": [{"g": 1}]})
+                q.append({"op": "spawn", "p": 0, "r": 901, "kind": "apply", "fk": "sync", "num": 1, "sc": [{"g": 1}]})
+                q += [{"op": "unlock", "p": 0}, {"op": "read"}]
+                q.append({"op": "spawn", "p": 0, "r": 902, "kind": "map", "fk": "sync", "elems": [0] * 6, "nc": 2, "sc": [{"g": 1}]})
+        elif t == "parked_cb":
+            m = self.PARKED[(self.index // len(self.TEMPLATES)) % len(self.PARKED)] if self.index is not None else rng.choice(self.PARKED[:-1])
+            q += [{"op": "spawn", "p": 0, "r": 1, "kind": "apply", "fk": "sync", "num": 1, "ccb": "g", "ecb": cb, "sc": [{"g": 1}]},
+                  {"op": "idle"}, {"op": "cancel", "p": 0, "ids": [["t", 1, 0]]}, {"op": "idle"},
+                  {"op": "spawn", "p": 0, "r": 2, "kind": "map", "fk": "sync", "elems": [0] * m, "nc": rng.choice([1, 2]), "sc": [{"g": 0}]},
+                  {"op": "idle"}, {"op": "read"}]
+            if rng.random() < 0.5:
+                q += [{"op": "flush", "p": 0, "rex": 1}, {"op": "run", "n": 5}, {"op": "read"}]
+            q += [{"op": "gate", "key": ["c", "ccb", 1, 0]}, {"op": "idle"}, {"op": "read"}]
+            # and then the pool is filled to its size again
+            q += [{"op": "spawn", "p": 0, "r": 3, "kind": "apply", "fk": "sync", "num": 3, "sc": [{"g": 1}]}, {"op": "idle"}, {"op": "read"}]
         elif t == "names":
             names = rng.sample(self.NAMES, rng.choice([2, 4, 6]))
             for i, nm in enumerate(names):
@@ -653,9 +757,15 @@ class ScaleGen(Gen):
             q.append({"op": "cancel_group", "p": 0, "r": rng.randrange(len(names)) + 1})
             q.append({"op": "spawn", "p": 0, "r": 90, "kind": "apply", "fk": "sync", "num": 1, "gn": names[0], "sc": [{"g": 1}]})  # duplicate or re-use
         elif t == "start_stop":
-            n = rng.choice([12, 64, 100, 130])
+            n = rng.choice([12, 64, 100, 130, 300, 435])
+            if rng.random() < 0.4:
+                # a long-lived pool: ~1000 tasks have come and gone, so the ids of what runs now have four digits
+                q += [{"op": "spawn", "p": 0, "r": 50, "kind": "start", "num": rng.choice([95, 995, 1000, 1020]), "sc": [{"g": 0}]}, {"op": "idle"}]
+                if rng.random() < 0.6:
+                    q += [{"op": "flush", "p": 0, "rex": 1}, {"op": "idle"}]
+                n = rng.choice([3, 8, 12, 64])
             q += [{"op": "spawn", "p": 0, "r": 1, "kind": "start", "num": n}, {"op": "idle"}]
-            for k in (rng.choice([10, 11, 63, 64]), rng.choice([1, 10, 99]), 10 ** 9):
+            for k in (rng.choice([3, 10, 11, 63, 64, 257, 300]), rng.choice([1, 10, 99]), 10 ** 9):
                 q += [{"op": "stop", "p": 0, "n": k}, {"op": "idle"}]
                 if rng.random() < 0.5:
                     q.append({"op": "spawn", "p": 0, "r": 10 + k % 7, "kind": "start", "num": rng.choice([1, 10, 11])})
@@ -675,7 +785,25 @@ class ScaleGen(Gen):
                           "ecb": cb, "sc": [{"g": 1}]})
                 q.append({"op": "idle"})
         q.append({"op": "idle"})
+        if self.close_mode == "early" and t not in ("pools", "parked_cb"):
+            q += [{"op": "until_closed", "p": 0}, {"op": "gather", "p": 0, "rex": int(rng.random() < 0.5)}, {"op": "run", "n": 3}]
         return q
+
+    def _old_ids(self, sim):
+        """cancel() of ids that ended long ago (and of a mix with a running one): the answer must not depend on how many
+        tasks have ended since."""
+        rng = self.rng
+        out = []
+        pc = sim.pools[0]
+        if len(pc.tasks) >= 20:
+            for _ in range(3):
+                t = rng.choice(pc.tasks[:max(1, len(pc.tasks) // 2)])
+                refs = [self._task_ref(t)]
+                if rng.random() < 0.5:
+                    refs.append(self._task_ref(rng.choice(pc.tasks)))
+                out.append({"op": "cancel", "p": 0, "ids": refs})
+            out.append({"op": "read"})
+        return out
 
     def next_step(self, sim):
         if sim.hit_cap:
@@ -685,19 +813,46 @@ class ScaleGen(Gen):
             self.queue = self._initial(sim)
         if self.queue:
             return self.queue.pop(0)
+        if self.tail is None and not self.asked_old and rng.random() < 0.3:
+            self.asked_old = True
+            self.queue = self._old_ids(sim)
+            if self.queue:
+                return self.queue.pop(0)
         if self.tail is None:
             keys = sim.pending_gates()
-            if keys and self.drained < 4000:
+            if keys and self.drained < 5000:
                 self.drained += 1
+                if self.mid_cancel and self.drained == 1 + len(keys) // 3:
+                    # a cancellation in the middle of the large request(s)
+                    pc = sim.pools[0]
+                    live = [r for r in pc.reqs if r.cancelled_seq is None and r.kind != "start"]
+                    self.mid_cancel = False
+                    if live and rng.random() < 0.7:
+                        return {"op": "cancel_group", "p": 0, "r": rng.choice(live).label}
+                    return {"op": "cancel_all", "p": 0}
                 key = rng.choice(keys) if rng.random() < 0.7 else keys[0]
                 st = {"op": "gate", "key": list(key)}
                 if rng.random() < 0.03 and key[0] == "w":
                     st["how"] = "x"
-                self.queue.append({"op": "idle"} if rng.random() < 0.5 else {"op": "run", "n": rng.choice([1, 2, 5])})
+                few = len(keys) < 40
+                self.queue.append({"op": "idle"} if rng.random() < (0.5 if few else 0.03) else {"op": "run", "n": rng.choice([1, 2, 5])})
                 return st
-            self.tail = [{"op": "idle"}, {"op": "read"}, {"op": "flush", "p": 0, "rex": 1}, {"op": "idle"}, {"op": "read"}]
-            if rng.random() < 0.5:
-                self.tail += [{"op": "gather", "p": 0, "rex": 1}, {"op": "idle"}]
+            self.tail = [{"op": "idle"}, {"op": "read"}] + self._old_ids(sim)
+            pc = sim.pools[0]
+            if pc.size is not None and 0 < pc.size <= 128 and not pc.closed and not self.filled and self.template != "pools":
+                # fill the pool to its size once more: a slot lost on the way shows as is_full with too few running
+                self.filled = True
+                self.tail = None
+                self.queue += [{"op": "spawn", "p": 0, "r": 990, "kind": "start" if pc.cls == "S" else "apply", "fk": "sync",
+                                "num": pc.size + 1, "sc": [{"g": 1}]}, {"op": "idle"}, {"op": "read"}]
+                return self.queue.pop(0)
+            rex0 = 0 if self.pre_fail else 1
+            if self.close_mode == "unflushed":
+                self.tail += [{"op": "gather", "p": 0, "rex": int(rng.random() < 0.5) if not self.pre_fail else 0}, {"op": "idle"}]
+            else:
+                self.tail += [{"op": "flush", "p": 0, "rex": rex0}, {"op": "idle"}, {"op": "read"}, {"op": "flush", "p": 0, "rex": 1}, {"op": "idle"}]
+                if self.close_mode == "flushed":
+                    self.tail += [{"op": "gather", "p": 0, "rex": 1}, {"op": "idle"}]
         if self.tail:
             return self.tail.pop(0)
         return None
